@@ -109,6 +109,7 @@ func backendScen(c *Ctx) {
 		known bool
 		fault *world.BFault
 		multi []*bKey
+		off   int64 // read offset (CAS reads through the disk API and ByteStream.Read)
 	}
 	nOps := 6 + r.Intn(14)
 	var ops []bop
@@ -122,6 +123,13 @@ func backendScen(c *Ctx) {
 			if o.k.kind != cache.CAS {
 				o.via = 0
 				o.known = false
+			} else if o.via != 1 && r.Chance(1, 3) {
+				// a read from an offset: also the first read of an entry only the backend holds
+				nn := int64(len(o.k.data))
+				o.off = []int64{1, nn / 2, nn - 1, 4096, 4097}[r.Intn(5)]
+				if o.off >= nn || o.off < 0 {
+					o.off = 0 // (a read at offset n is refused; C02 covers offset n on local entries)
+				}
 			}
 			if faultful && r.Chance(1, 2) {
 				fl := getFaultsB1
@@ -175,25 +183,30 @@ func backendScen(c *Ctx) {
 			e := world.Observe(n).Find(k.name())
 			return e != nil && e.Size == int64(len(k.data))
 		}
-		read := func(k *bKey, via int, known bool) (world.Res, string) {
+		readAt := func(k *bKey, via int, known bool, off int64) (world.Res, string) {
 			nn := int64(len(k.data))
 			sz := int64(-1)
 			if known {
 				sz = nn
 			}
+			at := ""
+			if off > 0 {
+				at = "@offset"
+			}
 			switch {
 			case k.kind != cache.CAS:
 				return cl.DiskGet(k.kind, k.hash, -1, 0, false, world.FullRead), "disk.Get/" + k.kind.String()
 			case via == 0:
-				return cl.DiskGet(cache.CAS, k.hash, sz, 0, false, world.FullRead), fmt.Sprintf("disk.Get(known=%v)", known)
+				return cl.DiskGet(cache.CAS, k.hash, sz, off, false, world.FullRead), fmt.Sprintf("disk.Get(known=%v)%s", known, at)
 			case via == 1:
 				return cl.HTTPGet("/cas/"+k.hash, false, world.FullRead), "http.GET"
 			case via == 2:
-				return cl.BSRead(world.ReadName("", k.hash, nn, false), 0, 0, false, world.FullRead), "ByteStream.Read"
+				return cl.BSRead(world.ReadName("", k.hash, nn, false), off, 0, false, world.FullRead), "ByteStream.Read" + at
 			default:
-				return cl.DiskGet(cache.CAS, k.hash, sz, 0, true, world.FullRead), fmt.Sprintf("disk.GetZstd(known=%v)", known)
+				return cl.DiskGet(cache.CAS, k.hash, sz, off, true, world.FullRead), fmt.Sprintf("disk.GetZstd(known=%v)%s", known, at)
 			}
 		}
+		read := func(k *bKey, via int, known bool) (world.Res, string) { return readAt(k, via, known, 0) }
 		for i, o := range ops {
 			st.Disarm()
 			if o.fault != nil {
@@ -207,19 +220,26 @@ func backendScen(c *Ctx) {
 				local := localHas(k)
 				_, inBackend := st.Objects[name]
 				getsBefore := st.GetReqs[name]
-				res, path := read(k, o.via, o.known)
+				res, path := readAt(k, o.via, o.known, o.off)
 				s.Settle()
 				fired := o.fault != nil && o.fault.Fired
 				site := bk + "/" + path
+				want := k.data
+				if o.off > 0 && k.kind == cache.CAS && o.via != 1 {
+					want = k.data[o.off:]
+				}
 				s.Note("%d get %s %s -> %s found=%v n=%d fired=%v", i, short(k.name()), path, res.Code, res.Found, len(res.Data), fired)
 				c.Cell("%s|%s|%s|fault=%v", bk, cfg.Storage, path, faultName(o.fault, fired))
 				if res.Found && res.OK {
-					if !bytes.Equal(res.Data, k.data) {
-						s.Violate("C12.no-wrong-hit", site, "hit for %s returned %d bytes that are not its content (%d bytes) [fault %s]", short(k.name()), len(res.Data), nn, faultName(o.fault, fired))
+					if !bytes.Equal(res.Data, want) {
+						s.Violate("C12.no-wrong-hit", site, "hit for %s returned %d bytes that are not its content from offset %d (%d bytes) [fault %s]", short(k.name()), len(res.Data), o.off, len(want), faultName(o.fault, fired))
+						if o.off > 0 && !fired {
+							s.Violate("C02.exact", site, "read of %s at offset %d returned %d bytes, not bytes [%d,%d)", short(k.name()), o.off, len(res.Data), o.off, nn)
+						}
 					} else if res.Size >= 0 && res.Size != nn && !strings.HasPrefix(path, "http.GET") {
 						s.Violate("C12.no-wrong-hit", site, "hit for %s reports size %d, content has %d bytes", short(k.name()), res.Size, nn)
 					}
-				} else if res.Found && len(res.Data) > 0 && !strings.Contains(path, "Zstd") && !bytes.HasPrefix(k.data, res.Data) {
+				} else if res.Found && len(res.Data) > 0 && !strings.Contains(path, "Zstd") && !bytes.HasPrefix(want, res.Data) {
 					s.Violate("C12.no-wrong-hit", site, "bytes delivered before an error are not a prefix of the content")
 				}
 				hit := res.Found && res.OK
